@@ -228,7 +228,7 @@ ADDENDA = {
     "C03": "Also decides: (R03.d) accepting shortcuts before the union member loop need an exact justification; by model extraction (R03.e): the can_assign methods of Value / KnownValue / TypedValue / MultiValuedValue / AnyValue and TypeObject are interpreted from their AST with real runtime objects and classes as payloads - each of 12 objects is accepted by each of 30 types exactly when it is a member (isinstance with numeric promotion, type-strict literals), incl. the large-union fast path.",
     "C04": "Also decides: (R04.g) exact early accepts in MultiValuedValue.can_assign; (R04.h) SequenceValue acceptances are dominated by the length comparison; (R04.i) direction of the metatype test; by model extraction (R04.j): on every ordered pair of 36 static types acceptance implies inclusion of member sets, reflexivity, Never/Any laws, union-right = forall, union-left = exists, exclude-any monotone.",
     "C05": "Also decides, by model extraction: (R05.f/g) the body of bind_arguments is interpreted from its AST over an abstract store (opaque values, concrete control skeleton) for every def-legal signature of up to 4 (quick) / 6 (thorough) parameters and every call shape of up to 4 positionals and 4 keywords with and without *args/**kwargs of unknown length (158,620 / 2,883,300 abstract calls); accepted <=> CPython binds on the definite slice, and the exists-expansion clause on the star slice, against a reference binder that the thorough tier validates against the interpreter's own binding.",
-    "C06": "Also decides: (R06.c) every collected bounds map reaches the solver through one unified list; (R06.d) the own-default exemption is an identity test.",
+    "C06": "Also decides: (R06.c) every collected bounds map reaches the solver through one unified list; (R06.d) the own-default exemption is an identity test; by model extraction (R06.e): the whole call-checking stack from check_call_preprocessed down to the can_assign methods and TypeObject is interpreted from its AST for non-generic signatures of 1-2 parameters with nominal annotations and literal arguments (60,000 / 390,000 calls): diagnosed <=> the call does not bind or an argument is outside its parameter's declared type.",
     "C07": "Also decides: (R07.e) actual parameters are marked consumed only when paired with a named expected parameter; by model extraction (R07.f/g): Signature.can_assign is interpreted from its AST for every pair of def-legal signatures (expected <= 3/4 parameters, actual <= 3 under every naming from a pool of 4; 334,952 / 959,896 pairs) - every accepted pair must let each call shape (<= 3 positionals, <= 3 keywords) that binds to the expected signature bind to the actual one, and every argument flow of a commonly bound shape must have had its annotation pair compared.",
     "C08": "By model extraction: (R08.f) OverloadedSignature.check_call and _unite_rets are interpreted from their AST with overloads as model objects following the documented single-overload contract, for every set of 2-3 (thorough 4) overloads x every argument (atom, union, Any): plain arguments are typed by the first accepting overload and diagnosed iff none accepts; unions are accepted iff every member is, with each member's own result in the type; Any never selects one overload's type when several match. Also decides: (R08.e) union decomposition for positional and keyword arguments alike.",
     "C09": "Also decides: (R09.e) the scope synthesised for a suppressing with-block keeps LEAVES_LOOP.",
